@@ -111,6 +111,12 @@ def impl_make(cfg, verdicts_ref):
     return StreamTokenizer(lambda f: verdicts_ref[0][f], mn, mx, ms, init_min=imin, init_max_silence=ims, mode=mode)
 
 
+def StreamTokenizerProxy(cfg, vals):
+    from auditok.core import StreamTokenizer
+    mn, mx, ms, imin, ims, mode = cfg
+    return StreamTokenizer(lambda f: vals["cur"][f], mn, mx, ms, init_min=imin, init_max_silence=ims, mode=mode)
+
+
 def exc_code(e):
     import auditok.exceptions as X
     from auditok.io import AudioIOError, AudioParameterError
@@ -297,9 +303,31 @@ def _worker(job):
             # v is a pair (first stream, second stream); earlier use: complete / partial / abandoned generator
             v1, v2 = v
             fresh, _ = impl_tokens(impl_make(cfg, ref), ref, v2, "list")
-            for how in ("complete", "partial", "abandoned", "callback"):
+            for how in ("complete", "partial", "abandoned", "callback", "deferred"):
                 tk2 = impl_make(cfg, ref)
                 ref[0] = v1
+                if how == "deferred":
+                    # both generators are created before either is consumed, then consumed one after the other
+                    class VSrc(ListSource):
+                        def __init__(self, verdicts):
+                            ListSource.__init__(self, len(verdicts)); self.v = verdicts
+                    vals = {"cur": None}
+                    tkd = StreamTokenizerProxy(cfg, vals)
+                    s1, s2 = ListSource(len(v1)), ListSource(len(v2))
+                    g1 = tkd.tokenize(s1, generator=True)
+                    g2 = tkd.tokenize(s2, generator=True)
+                    vals["cur"] = v1
+                    list(g1)
+                    vals["cur"] = v2
+                    got = [[s, e, list(d)] for (d, s, e) in g2]
+                    stats["evals"] += 1
+                    if got != fresh and "C20" not in viol:
+                        viol["C20"] = {"cfg": cfg, "first_stream": v1, "second_stream": v2, "earlier_use": "a second generator created before the first one was consumed",
+                                       "what": "reused tokenizer differs from a fresh one", "reused": got, "fresh": fresh}
+                    if got != fresh and "C08" not in viol:
+                        viol["C08"] = {"cfg": cfg, "first_stream": v1, "second_stream": v2,
+                                       "what": "generator delivery differs from list delivery when the generator is created before an earlier one is consumed", "generator": got, "list": fresh}
+                    continue
                 if how == "complete":
                     tk2.tokenize(ListSource(len(v1)))
                 elif how == "callback":
@@ -430,6 +458,160 @@ def _accept_worker(chunk):
     return out
 
 
+def split_laziness(r, n_cases):
+    """C08 at the level of split(): how much of the input has been pulled when each region reaches the consumer.
+    Inputs that can be observed: a counting AudioSource, an AudioReader over one, and standard input ('-')."""
+    import io as _io
+    import struct
+    import auditok
+    import auditok.io as aio
+    from auditok.util import AudioReader
+    evals, viol = 0, None
+    for it in range(n_cases):
+        rate = r.choice([10, 100, 1000]); W = r.choice([1, 2, 5]); sw = 2
+        nwin = r.randint(3, 40)
+        pat, cur = [], 0
+        while len(pat) < nwin:
+            cur = 1 - cur if pat else r.choice([0, 1])
+            pat.extend([cur] * r.randint(1, 6))
+        pat = pat[:nwin]
+        samples = []
+        for on in pat:
+            samples.extend([(8000 if i % 2 == 0 else -8000) if on else 0 for i in range(W)])
+        data = struct.pack("<%dh" % len(samples), *samples)
+        aw = W / rate
+        mn = r.choice([1, 2]); mx = r.choice([3, 5, 50]); ms = r.choice([0, 1, 2])
+        if ms >= mx:
+            ms = mx - 1
+        kw = dict(min_dur=mn * aw, max_dur=mx * aw, max_silence=ms * aw, energy_threshold=50)
+        for kind in ("source", "reader", "stdin"):
+            pulled = [0]
+
+            class Counting(aio.BufferAudioSource):
+                def read(self, size):
+                    b = super().read(size)
+                    if b is not None:
+                        pulled[0] += len(b) // sw
+                    return b
+
+            class CountingStdin(_io.RawIOBase):
+                def __init__(self):
+                    self.i = 0
+
+                def readable(self):
+                    return True
+
+                def readinto(self, b):
+                    k = min(len(b), len(data) - self.i)
+                    b[:k] = data[self.i:self.i + k]
+                    self.i += k
+                    pulled[0] = self.i // sw
+                    return k
+            old_stdin = aio.sys.stdin
+            try:
+                if kind == "source":
+                    gen = auditok.split(Counting(data, rate, sw, 1), analysis_window=aw, **kw)
+                elif kind == "reader":
+                    gen = auditok.split(AudioReader(Counting(data, rate, sw, 1), block_dur=aw), **kw)
+                else:
+                    class FakeStdin:
+                        buffer = _io.BufferedReader(CountingStdin(), buffer_size=sw * W)
+                    aio.sys.stdin = FakeStdin
+                    gen = auditok.split("-", analysis_window=aw, sr=rate, sw=sw, ch=1, **kw)
+                regs = []
+                for reg in gen:
+                    regs.append((round(reg.meta.start * rate), len(reg), pulled[0]))
+            except Exception as e:   # noqa
+                regs = "raised %s: %s" % (type(e).__name__, e)
+            finally:
+                aio.sys.stdin = old_stdin
+            evals += 1
+            if isinstance(regs, str):
+                continue
+            total = len(samples)
+            for (s0, n, got) in regs:
+                end_win = (s0 + n - 1) // W                      # last window of the region
+                nw = -(-n // W)
+                # decided by the window completing max_length, by the first window of excess silence, or by end of stream;
+                # a BufferedReader may have prefetched up to one more window from the raw stdin
+                limit = (end_win + 1) if nw == mx else (end_win + 1 + ms + 1)
+                slack = W if kind == "stdin" else 0
+                if got > min(total, limit * W + slack) and viol is None:
+                    viol = {"what": "split() through %s had pulled %d samples (of %d) when the region of windows %d..%d reached the consumer; "
+                                    "its end is decided after window %d at the latest (%d samples)" % (
+                                        {"source": "an AudioSource object", "reader": "an AudioReader", "stdin": "standard input ('-')"}[kind], got, total,
+                                        s0 // W, end_win, limit - 1, min(total, limit * W)),
+                            "input": kind, "rate": rate, "window_samples": W, "activity_pattern": pat, "min/max/max_silence windows": [mn, mx, ms], "regions(start,len,pulled)": regs}
+    return evals, viol
+
+
+def validator_history(r, n_cases):
+    """C20: validators give the same verdict for the same window whatever they judged before (windows of different lengths, all selectors)"""
+    import struct
+    from auditok.util import AudioEnergyValidator
+    evals, viol = 0, None
+    for it in range(n_cases):
+        sw = r.choice([1, 2, 4]); ch = r.choice([1, 2, 3]); uc = r.choice([None, "any", "mix", "avg", 0, -1])
+        amp = {1: 100, 2: 3000, 4: 300000}[sw]; eth = {1: 30, 2: 50, 4: 90}[sw]
+        wins = []
+        for _ in range(r.randint(2, 7)):
+            n = r.choice([1, 2, 5, 10, 20, 50])
+            loud = r.random() < 0.5
+            vals = []
+            for i in range(n):
+                for c in range(ch):
+                    vals.append((amp if (i + c) % 2 == 0 else -amp) if loud else r.choice([0, 0, 1, -1]))
+            wins.append(struct.pack("<%d%s" % (len(vals), {1: "b", 2: "h", 4: "i"}[sw]), *vals))
+        try:
+            used = AudioEnergyValidator(eth, sw, ch, use_channel=uc)
+            hist = [bool(used.is_valid(w)) for w in wins]
+            fresh = [bool(AudioEnergyValidator(eth, sw, ch, use_channel=uc).is_valid(w)) for w in wins]
+        except Exception:
+            continue
+        evals += len(wins)
+        if hist != fresh and viol is None:
+            k = [i for i, (a, b) in enumerate(zip(hist, fresh)) if a != b][0]
+            viol = {"what": "validator (sw=%d, ch=%d, use_channel=%r) judges window %d (%d samples) %s after %d earlier windows but %s when fresh" % (
+                sw, ch, uc, k, len(wins[k]) // (sw * ch), "active" if hist[k] else "inactive", k, "active" if fresh[k] else "inactive"),
+                    "window_lengths_samples": [len(w) // (sw * ch) for w in wins], "verdicts_used_validator": hist, "verdicts_fresh": fresh}
+    return evals, viol
+
+
+def buffer_reopen(r):
+    """C20: closing and reopening a buffer source restarts at the beginning, whatever happened before (exhaustive short histories)"""
+    from auditok.io import BufferAudioSource
+    data = bytes(range(1, 25))
+    alpha = ["open", "close", "read2", "read9", "pos5", "pos-1", "rewind"]
+    evals, viol = 0, None
+    for L in range(0, 5):
+        for seq in itertools.product(alpha, repeat=L):
+            src = BufferAudioSource(data, 16, 2, 1)
+            for o in seq:
+                try:
+                    if o == "open":
+                        src.open()
+                    elif o == "close":
+                        src.close()
+                    elif o == "rewind":
+                        src.rewind()
+                    elif o.startswith("read"):
+                        src.read(int(o[4:]))
+                    else:
+                        src.position = int(o[3:])
+                except Exception:
+                    pass
+            try:
+                src.close(); src.open()
+                got = src.read(3)
+            except Exception as e:   # noqa
+                got = "raised %s" % type(e).__name__
+            evals += 1
+            if got != data[:6] and viol is None:
+                viol = {"what": "buffer source after %r, close(), open(): read(3) returned %r instead of the first three samples %r" % (list(seq), got, data[:6]),
+                        "history": list(seq)}
+    return evals, viol
+
+
 def run(prop, tier):
     res = C.Result(prop, tier)
     proof = C.proof_step(PROPS[prop])
@@ -500,6 +682,16 @@ def run(prop, tier):
             for k, x in v.items():
                 violations.setdefault(k, x)
             samples.append({"config": list(cfgs[700]), "verdicts": st8[-5], "model_tokens_with_read_count": raw[700][1][-5] if raw[700][0] == 0 else raw[700]})
+            # deferred generators (also a C20 history) on a sub-grid
+            t, m, v, _, _ = correspondence("reuse", cfgs[::9], [(a, b) for a in streams_upto(3) for b in streams_upto(4)], pool)
+            tot_ev += t["evals"]; mismatches += m
+            if "C08" in v:
+                violations.setdefault("C08", v["C08"])
+            ev_l, v_l = split_laziness(r, 60 if quick else 600)
+            tot_ev += ev_l
+            res.notes["split_laziness_runs"] = ev_l
+            if v_l:
+                violations.setdefault("C08", v_l)
         if prop == "C20":
             base = streams_upto(4 if quick else 5)
             pairs = [(a, b) for a in base for b in base]
@@ -509,6 +701,14 @@ def run(prop, tier):
             for k, x in v.items():
                 violations.setdefault(k, x)
             samples.append({"config": list(sub[100]), "first_stream": pairs[-7][0], "second_stream": pairs[-7][1]})
+            ev_v, v_v = validator_history(r, 400 if quick else 4000)
+            ev_b, v_b = buffer_reopen(r)
+            tot_ev += ev_v + ev_b
+            res.notes["validator_history_windows"] = ev_v
+            res.notes["buffer_reopen_histories"] = ev_b
+            for vv in (v_v, v_b):
+                if vv:
+                    violations.setdefault("C20", vv)
     # cross-check of the extraction on a sample of single cases
     sample_cases = []
     for _ in range(25):
